@@ -22,7 +22,7 @@ OTHER = [
     ("container", ["molden-au", "molden-angs", "molekel"]),
     ("mo", ["restricted", "unrestricted"]),
     ("norm_threshold", [1e-4, 1e-3, 1e-6]),
-    ("corruption", ["none", "primitive-scaled", "mo-coefficient-perturbed", "two-quirks-mixed", "function-dropped-sign"]),
+    ("corruption", ["none", "primitive-scaled", "mo-coefficient-perturbed", "two-quirks-mixed", "function-dropped-sign", "norm-off-within-threshold"]),
     ("primitive_order", ["decreasing", "increasing", "increasing-tight-last"]),  # the formats do not prescribe an order of the primitives
     ("geometry", ["bonded", "stretched"]),
 ]
@@ -93,6 +93,11 @@ def corrupt(kind, shells, orbs, thr):
         v = orbs[0][1][0][3]
         i = int(np.argmax(np.abs(v)))
         v[i] += 50 * thr
+    elif kind == "norm-off-within-threshold":
+        # one orbital scaled so that its norm is off by a third of the threshold the caller allows: still an acceptable file
+        spin, lst = orbs[0]
+        e, o, irr, v = lst[0]
+        lst[0] = (e, o, irr, [c * (1.0 + thr / 6.0) for c in v])
     elif kind == "function-dropped-sign":
         v = orbs[0][1][-1][3]
         i = int(np.argmax(np.abs(v)))
@@ -116,6 +121,8 @@ def worker(chunk, seed, tier):
             if len(part.samples) < 1 and vendor == "orca":
                 part.sample(info)
             thr = other["norm_threshold"]
+            if other["corruption"] == "norm-off-within-threshold":
+                thr = 1e-2  # a caller-chosen, generous threshold: a branch that silently falls back to the default 1e-4 rejects the file
             atoms = ATOMS_OF[other.get("geometry", "bonded")]
             shells, gshells, coords, orbs, coeffs, nelec, mult = true_wavefunction(shellset, other["mo"], seed, atoms, tight=other.get("primitive_order") == "increasing-tight-last")
             truth = gto.eval_orbitals(coeffs, gto.eval_basis(gshells, vendors.MOLDEN, coords, pts))
@@ -153,6 +160,13 @@ def worker(chunk, seed, tier):
             corrections = [str(w.message) for w in wl if issubclass(w.category, LoadWarning) and "Corrected" in str(w.message)]
             sigbase = f"{vendor}:{other['container'].split('-')[0]}"
             shell_tag = "+".join(info["shells"])
+            if other["corruption"] == "norm-off-within-threshold":
+                # norms deviate by thr/3: every vendor branch must judge it with the caller's threshold and accept the file
+                part.outcome("within-threshold", "loaded" if exc is None else "REJECTED")
+                if exc is not None:
+                    part.violation("load", f"{sigbase}:rejected-although-within-norm_threshold", info,
+                                   f"{shell_tag} written as {vendor}: orbital norms deviate by {thr / 3:.1e} (norm_threshold={thr}), yet: {str(exc)[:150]}")
+                continue
             if other["corruption"] != "none":
                 if exc is not None:
                     part.outcome("corrupted", "LoadError")
@@ -265,7 +279,7 @@ def run(ctx):
     ctx.rule = (
         f"full product of every non-empty subset of angular momenta 0..{lmax} (each l>=2 Cartesian or pure) x the 7 encodings (standard, ORCA, PSI4<=1.0, Turbomole, CFOUR 2.1, unnormalised contractions, "
         f"PSI4<=1.3.2; only shell types the vendor quirk covers) x deviation-bounded (k<={k}) variation of container {{Molden AU, Molden Angs, Molekel}}, orbitals {{restricted, unrestricted}}, "
-        "norm_threshold {1e-4,1e-3,1e-6}, primitive order {decreasing, increasing, increasing with a 10x tighter third primitive}, geometry {bonded, stretched} (these two also combined), corruption {none, one primitive scaled, one MO coefficient perturbed, two vendors mixed, sign of one coefficient}; files are produced by independent writers and "
+        "norm_threshold {1e-4,1e-3,1e-6}, primitive order {decreasing, increasing, increasing with a 10x tighter third primitive}, geometry {bonded, stretched} (these two also combined), corruption {none, one orbital norm off by a third of norm_threshold (must still load), one primitive scaled, one MO coefficient perturbed, two vendors mixed, sign of one coefficient}; files are produced by independent writers and "
         "encoders (ref/vendors.py) from a true wavefunction with a complete orthonormal orbital set; loaded orbitals are compared with the truth at 10 probe points via ref/gto.py. Corpus vendor files anchor the encoders."
     )
     ctx.assumptions += ["the encoders restate the quirks as iodata documents them (inverse of the documented corrections)",
